@@ -109,8 +109,9 @@ func (b *BX) Atoms(into map[string]bool) {
 
 type PEvent struct {
 	Label string
-	Kind  string // call, defer, go, send, recv, store, rundefers, mapupdate
+	Kind  string // call, defer, go, send, recv, store, rundefers, mapupdate, assume
 	Instr ssa.Instruction
+	Val   bool // for assume events
 }
 
 type Path struct {
@@ -135,6 +136,9 @@ func (p *Path) String() string {
 	sort.Strings(as)
 	var ev []string
 	for _, e := range p.Events {
+		if e.Kind == "assume" {
+			continue
+		}
 		ev = append(ev, e.Kind+":"+e.Label)
 	}
 	return fmt.Sprintf("[%s] events=%v -> %v", strings.Join(as, " "), ev, p.Out)
@@ -173,10 +177,14 @@ type peState struct {
 	blocks []int
 	visits map[int]int
 	pred   map[*ssa.BasicBlock]*ssa.BasicBlock // latest predecessor through which a block was entered
+	mem    map[*ssa.Alloc]ssa.Value            // last value stored into a local cell on this path (defer-spilled results, captured locals)
 }
 
 func (s *peState) clone() *peState {
-	c := &peState{asg: make(map[string]bool, len(s.asg)), visits: make(map[int]int, len(s.visits)), pred: make(map[*ssa.BasicBlock]*ssa.BasicBlock, len(s.pred))}
+	c := &peState{asg: make(map[string]bool, len(s.asg)), visits: make(map[int]int, len(s.visits)), pred: make(map[*ssa.BasicBlock]*ssa.BasicBlock, len(s.pred)), mem: make(map[*ssa.Alloc]ssa.Value, len(s.mem))}
+	for k, v := range s.mem {
+		c.mem[k] = v
+	}
 	for k, v := range s.asg {
 		c.asg[k] = v
 	}
@@ -215,7 +223,7 @@ func (pe *PathEnum) Run() *PathEnum {
 	if len(pe.Fn.Blocks) == 0 {
 		return pe
 	}
-	st := &peState{asg: map[string]bool{}, visits: map[int]int{}, pred: map[*ssa.BasicBlock]*ssa.BasicBlock{}}
+	st := &peState{asg: map[string]bool{}, visits: map[int]int{}, pred: map[*ssa.BasicBlock]*ssa.BasicBlock{}, mem: map[*ssa.Alloc]ssa.Value{}}
 	pe.walk(pe.Fn.Blocks[0], nil, st)
 	return pe
 }
@@ -245,6 +253,10 @@ func (pe *PathEnum) walk(b *ssa.BasicBlock, from *ssa.BasicBlock, st *peState) {
 			}
 		}
 		switch x := in.(type) {
+		case *ssa.Store:
+			if a, ok := x.Addr.(*ssa.Alloc); ok {
+				st.mem[a] = pe.resolve(x.Val, st)
+			}
 		case *ssa.Return:
 			p := &Path{Asg: st.asg, Events: st.events, Ret: x, Blocks: st.blocks}
 			for _, r := range x.Results {
@@ -274,6 +286,30 @@ func (pe *PathEnum) walk(b *ssa.BasicBlock, from *ssa.BasicBlock, st *peState) {
 	}
 }
 
+// resolve follows phis (along the path) and loads of tracked local cells.
+func (pe *PathEnum) resolve(v ssa.Value, st *peState) ssa.Value {
+	for i := 0; i < 20 && st != nil; i++ {
+		switch x := v.(type) {
+		case *ssa.Phi:
+			if e := pe.phiEdge(x, st); e != nil {
+				v = e
+				continue
+			}
+		case *ssa.UnOp:
+			if x.Op == token.MUL {
+				if a, ok := x.X.(*ssa.Alloc); ok {
+					if m, ok := st.mem[a]; ok {
+						v = m
+						continue
+					}
+				}
+			}
+		}
+		break
+	}
+	return v
+}
+
 func (pe *PathEnum) emit(p *Path) {
 	pe.Paths = append(pe.Paths, p)
 	if len(pe.Paths) >= pe.Budget {
@@ -294,8 +330,42 @@ func (pe *PathEnum) branch(b *ssa.BasicBlock, f *BX, st *peState) {
 	for _, val := range []bool{true, false} {
 		c := st.clone()
 		c.asg[unk] = val
+		c.events = append(c.events, PEvent{Label: unk, Kind: "assume", Val: val})
+		// implication table: isexit(K) / is(K, target) true  =>  K != nil
+		if val {
+			if k := impliedNonNil(unk); k != "" {
+				if v, ok := c.asg["nil("+k+")"]; ok && v {
+					continue // infeasible: K was established nil on this path
+				}
+				c.asg["nil("+k+")"] = false
+			}
+		}
 		pe.branch(b, f, c)
 	}
+}
+
+// impliedNonNil: atoms whose truth implies that their first operand is non-nil.
+func impliedNonNil(atom string) string {
+	for _, p := range []string{"isexit(", "is("} {
+		if strings.HasPrefix(atom, p) && strings.HasSuffix(atom, ")") {
+			inner := atom[len(p) : len(atom)-1]
+			depth := 0
+			for i, r := range inner {
+				switch r {
+				case '(':
+					depth++
+				case ')':
+					depth--
+				case ',':
+					if depth == 0 {
+						return inner[:i]
+					}
+				}
+			}
+			return inner
+		}
+	}
+	return ""
 }
 
 func isBool(t types.Type) bool {
@@ -305,6 +375,7 @@ func isBool(t types.Type) bool {
 
 // cond converts a boolean ssa value into a formula over atoms, resolving phis along the path.
 func (pe *PathEnum) cond(v ssa.Value, st *peState) *BX {
+	v = pe.resolve(v, st)
 	if pe.Name != nil {
 		if n := pe.Name(v); n != "" {
 			return pe.atom(n, v)
@@ -459,6 +530,7 @@ func shortCallee(c *ssa.CallCommon) string {
 
 // key renders a value as a stable access path / provenance string.
 func (pe *PathEnum) key(v ssa.Value, st *peState) string {
+	v = pe.resolve(v, st)
 	if pe.Name != nil {
 		if n := pe.Name(v); n != "" {
 			return n
@@ -545,6 +617,7 @@ func fieldKeySSA(t types.Type, idx int) string {
 
 // classify names what a (non-boolean) result value is on this path.
 func (pe *PathEnum) classify(v ssa.Value, st *peState) string {
+	v = pe.resolve(v, st)
 	switch x := v.(type) {
 	case *ssa.Const:
 		if x.Value == nil {
